@@ -297,6 +297,13 @@ def run(ctx, prog):
         nontrivial = False
         for g in gl:
             t = g["t"]
+            sp = g.get("spelling") or ""
+            if sp and "/extras/tests/Helpers/" in sp:
+                # declared by the PROGMEM macro of the repo's Arduino *test stub*
+                # (extras/tests/Helpers/avr/pgmspace.h), not by library source:
+                # the library's own macro declares `static type const name[]`
+                why.append("declaration text comes from the Arduino test stub (%s), not from /repo/src" % sp.split("/extras/")[-1])
+                continue
             if g.get("tls"):
                 verdict = False
                 why.append("thread_local object is library-kept state")
